@@ -156,7 +156,8 @@ def ens_dhcp(self, old_self, exc):
     for k, v in d.items():
         others = others and implies(k != r, lookup_id(od, k) == v)
     granted = (a != -2 and child_of(a, via) and a != 0 and a != DEFAULT and others and lookup_addr_other(od, a, r)
-               and self.g_writes >= 1 and self.g_h_type == 128 and self.g_h_res == r and self.g_h_to == via
+               and self.g_writes >= 1 and self.g_writes <= ite(via == DEFAULT, 1, 2)    # bounded time: one try, two when relayed
+               and self.g_h_type == 128 and self.g_h_res == r and self.g_h_to == via
                and self.g_msg == bytes([a % 256, a // 256])
                and self.g_to == via and self.g_type == ite(via == DEFAULT, 2, 0))
     return not self._do_dhcp and d_inv(d) and (unchanged or granted)
@@ -277,7 +278,10 @@ def ens_master_update(self, old_self, result, exc):
     granted = t == 195 and self.g_writes >= 1
     # C16's hypothesis: requests arrive directly or through a node of level 0..3
     keeps_d = implies(not granted or via_ok, d_inv(d))
-    return node_ok(self) and keeps_d and quiet and implies(lookup, same_table(d, od)) and not self._do_dhcp
+    # C15 "finishes in bounded time": one update() transmits at most two frames of its own (a reply,
+    # and one more try for a relayed address response)
+    bounded = self.g_writes <= 2
+    return node_ok(self) and keeps_d and quiet and implies(lookup, same_table(d, od)) and not self._do_dhcp and bounded
 
 
 def ens_lookup_reply(self, old_self, result, exc):
